@@ -104,8 +104,8 @@ def main(
     # --------------
 
     logger.info("Starting time loop")
-    # for step in range(model.timer.Nsteps + 1):
-    for _step in range(model.timer.Nsteps):
+    # Cold start begins at step -1, warm start at step 0 (already initiated)
+    while model.timer.step < model.timer.Nsteps - 1:
         model.update()
 
     # --------------
